@@ -71,9 +71,7 @@ def stock_end(data):
     except Exception:  # noqa: BLE001 - the first pickle may name things that do not exist; use the pure-Python reader then
         from ..refvm import _Rec
         f = io.BytesIO(data)
-        u = _Rec.__new__(_Rec)
-        pickle._Unpickler.__init__(u, f)
-        u.log, u.steps, u._gc = [], [], {}
+        u = _Rec(f)
         try:
             u.load()
         except Exception:  # noqa: BLE001
